@@ -134,5 +134,8 @@ func writeTrouble(c *Ctx, err error) {
 	if c.Replay != nil {
 		return
 	}
+	if build.Repo != "/repo" {
+		return // a run against another tree never touches the evidence of the tree under verification
+	}
 	_ = os.Remove(build.VerifDir + "/evidence/" + c.ID + ".json")
 }
